@@ -187,7 +187,11 @@ int EGLPNUM_TYPENAME_ILLmps_next_field (
 	{
 		if (sscanf (state->p, "%s", state->field) == 1)
 		{
-			state->p += strlen (state->field) + 1;
+			while (EGLPNUM_TYPENAME_ILL_ISBLANK (state->p))
+			{
+				state->p++;
+			}
+			state->p += strlen (state->field);
 			state->field_num++;
 			return 0;
 		}
